@@ -37,7 +37,8 @@ func CheckRecursion(rootTypeName string, rootSchema *ischema.ISchema) error {
 			// Obviously, root type was visited.
 			rootTypeName: {},
 		},
-		path: []string{rootTypeName},
+		path:      []string{rootTypeName},
+		rootTypes: rootSchema.TypesList(),
 	}
 
 	return rc.check(rootSchema.RootNode(), rootSchema.TypesList())
@@ -51,6 +52,10 @@ type recursionChecker struct {
 	// Necessary for building an error message 'cause user should understand where
 	// recursion was found.
 	path []string
+
+	// rootTypes the types registered on the checked schema. A type registered
+	// there is usually not registered again on every type it is used in.
+	rootTypes map[string]ischema.Type
 }
 
 func (c *recursionChecker) check(node ischema.Node, types map[string]ischema.Type) error {
@@ -159,11 +164,25 @@ func (c *recursionChecker) checkMixedValueNode(
 
 func (c *recursionChecker) checkType(typeName string, types map[string]ischema.Type) error {
 	if !c.visit(typeName) {
-		return c.createError()
+		if typeName == c.path[0] {
+			// The checked type requires itself.
+			return c.createError()
+		}
+		// A cycle among other types: the checked type does not require
+		// itself through it. Do not walk it again.
+		c.path = c.path[:len(c.path)-1]
+		return nil
 	}
 	defer c.leave(typeName)
 
 	t := types[typeName]
+	if t.Schema == nil {
+		// The type that refers to typeName may know nothing about it: the
+		// type tables of registered types are usually empty. Without this the
+		// walk stopped at the second link, and a cycle of three or more types
+		// through the checked type went unnoticed.
+		t = c.rootTypes[typeName]
+	}
 	if t.Schema == nil {
 		// This might happen if we didn't know anything about this type.
 		// Normally we shouldn't get this situation.
